@@ -408,6 +408,77 @@ def fileb_drift(name, progs, wd):
             "drift_samples": [list(t) for t in drift[:5]], "tool_errors": r.tool_errors[:1]}
 
 
+LFN_CFG = """SPECIFICATION Spec
+CONSTANT MaxSlots = %d
+CONSTANT Build = "%s"
+CONSTANT Legacy = %s
+CONSTANT Small = %s
+CONSTANT Gen = %s
+INVARIANT Decoded
+INVARIANT Count
+INVARIANT Bounded
+CHECK_DEADLOCK FALSE
+"""
+
+
+def mc_lfn_reader(wd):
+    """design-level model checking of the directory reader (LfnReader: read_dir_entry driving LongNameBuilder over both LfnBuffer
+    implementations) on EVERY slot sequence of up to 4 slots over a 52-symbol alphabet (thorough: also 5 slots over 36 symbols): each entry
+    returned carries a long name DirSlots!LongNameOk accepts, one entry per live short slot, no out-of-range buffer access"""
+    out = {"spec": "LfnReader", "runs": [], "states": 0, "distinct": 0, "ok": True, "invariants": ["Decoded", "Count", "Bounded"]}
+    confs = [(4, "alloc", "FALSE"), (4, "fixed", "FALSE")] + ([(5, "alloc", "TRUE"), (5, "fixed", "TRUE")] if core.tier() == "thorough" else [])
+    for n, build, small in confs:
+        r = core.mc_run("LfnReader", LFN_CFG % (n, build, "{}", small, "FALSE"), wd, "lfn-%s-%d" % (build, n), workers=8, xmx="12g", timeout=6000)
+        if not r["ok"]:
+            raise core.ToolError("LfnReader model checking failed (%s, %d slots):\n%s" % (build, n, r["out_tail"]))
+        out["runs"].append({"MaxSlots": n, "Build": build, "small_alphabet": small == "TRUE", "states": r["states"], "distinct": r["distinct"], "wall": r["wall"]})
+        out["states"] += r["states"]
+        out["distinct"] += r["distinct"]
+    out["impl_model_conformance"] = lfn_conformance(wd)
+    return out
+
+
+def lfn_slots_bytes(slots):
+    out = []
+    for sl in slots:
+        if sl["t"] == "L":
+            out.append(gen.lfn_slot(sl["o"], sl["k"], sl["u"]))
+        elif sl["t"] == "S":
+            out.append(gen.sfn_slot(sl["n"], attr=sl["at"]))
+        else:
+            out.append([0xE5] + gen.sfn_slot([ord(c) for c in "GONE    TMP"])[1:])
+    return out
+
+
+def lfn_conformance(wd, corrupt=False):
+    """the binding of LfnReader to the code: every directory of up to 3 slots over the model's alphabet (8 271) is printed by TLC with the long
+    names the model's reader returns, written into a root directory, listed by the library under both buffer builds, and compared"""
+    g = core.mc_run("LfnReader", LFN_CFG % (3, "alloc", "{}", "FALSE", "TRUE"), wd, "lfn-gen", workers=1, want_progs=True)
+    if not g["ok"]:
+        raise core.ToolError("LfnReader generation failed:\n" + g["out_tail"])
+    hists = g.pop("progs")
+    specs = []
+    per = 300
+    for i in range(0, len(hists), per):
+        chunk = hists[i:i + per]
+        preds = [h["pred"] for h in chunk]
+        if corrupt:
+            preds = [p[:-1] + [[122]] if p else p for p in preds]      # (binding demonstration: the last predicted name falsified)
+        specs.append({"id": "lfn-%d" % (i // per), "base": gen.K("K3")["vol"], "dirs": [lfn_slots_bytes(h["slots"]) for h in chunk], "pred": preds})
+    res = {"directories": len(hists), "builds": {}}
+    for feat in ("ref", "noalloc"):
+        r = core.campaign("lfn-%s" % feat, specs, wd, feat=feat, spec="TraceDirDecode", mode="dirs", n_shards=8, jvms=8)
+        if r.tool_errors:
+            raise core.ToolError("LfnReader conformance replay failed:\n" + r.tool_errors[0])
+        drift = [t for t in r.notes if str(t[0]).startswith("B.")]
+        res["builds"][feat] = {"compared": len([t for t in r.infos if t[0] == "compared"]), "drift": len(drift), "drift_samples": [list(t) for t in drift[:3]],
+                               "violations": len(r.viol)}
+        if drift:
+            print("NOTE: LfnReader no longer describes the code on %d of %d directories (%s build; model drift, not a violation): %s"
+                  % (len(drift), res["builds"][feat]["compared"], feat, drift[:2]))
+    return res
+
+
 def units_str(u):
     return "".join(chr(x) for x in u)
 
@@ -1130,8 +1201,9 @@ def c17():
     res = []
     res.append(("alloc", core.campaign("alloc", specs, wd, spec="TraceDirDecode", mode="dirs", n_shards=14, jvms=8)))
     res.append(("fixedbuf", core.campaign("fixedbuf", specs, wd, feat="noalloc", spec="TraceDirDecode", mode="dirs", n_shards=14, jvms=8)))
-    core.finish("C17", LEVEL, res, None, t0,
-                "directories with arbitrary slot contents written into the root of FAT16/FAT32 volumes: all order/last-flag/checksum/deleted patterns for "
+    core.finish("C17", LEVEL, res, mc_lfn_reader(wd), t0,
+                "(0) TLC model-checks the reader itself (LfnReader: the loop of read_dir_entry and LongNameBuilder, dynamic and fixed buffer) on every "
+                "sequence of up to 4 slots over a 52-symbol alphabet against DirSlots!LongNameOk; (1) directories with arbitrary slot contents written into the root of FAT16/FAT32 volumes: all order/last-flag/checksum/deleted patterns for "
                 "runs of 1 and 2 long-name slots and sampled (thorough: 120 000) runs of 3, followed by file/directory/label/deleted/END; well-formed runs of "
                 "1..20 slots (260 units); unpaired surrogates, embedded NUL, 0xFFFF; every value (quick: stride 5 + special values) of every byte of a "
                 "long-name slot and of a short slot in three contexts; random slot soup; under the dynamic and the fixed-buffer build. TLC (DirSlots!Class, "
@@ -1348,6 +1420,17 @@ def selftest(args):
     ok = ok and good
     print("FileB replay              %d calls compared, drift %d; one predicted table cell falsified per behaviour: drift %d of %d  %s"
           % (f0["compared"], f0["drift"], f1["drift"], f1["behaviours"], "ok" if good else "MISSED"))
+    for flag, prop in {"skip_keeps_builder": "Decoded", "no_chk_compare": "Decoded", "clear_keeps_index": "Bounded"}.items():
+        r = core.mc_run("LfnReader", LFN_CFG % (4, "alloc", '{"%s"}' % flag, "TRUE", "FALSE"), wd, "llegacy")
+        good = (not r["ok"]) and prop in r["violated"]
+        ok = ok and good
+        print("LfnReader Legacy=%-19s expected counterexample to %-12s %s" % (flag, prop, "ok" if good else "MISSED"))
+    l0 = lfn_conformance(wd)
+    l1 = lfn_conformance(wd, corrupt=True)
+    good = all(v["compared"] > 8000 and v["drift"] == 0 for v in l0["builds"].values()) and all(v["drift"] > 5000 for v in l1["builds"].values())
+    ok = ok and good
+    print("LfnReader replay          %s; last predicted name falsified: %s  %s" % ({k: (v["compared"], v["drift"]) for k, v in l0["builds"].items()},
+                                                                                    {k: v["drift"] for k, v in l1["builds"].items()}, "ok" if good else "MISSED"))
     c0 = b_conformance(wd, 10)
     c1 = b_conformance(wd, 10, corrupt=True)
     good = c0["compared"] > 50 and c0["drift"] == 0 and c1["drift"] == c1["behaviours"]
